@@ -651,10 +651,34 @@ func (x *exec) evCall(n *ECall, env *Env, hint types.Type) *Val {
 			}
 		}
 		recv := x.ev(sel.X, env, nil)
-		obj, _, _ := types.LookupFieldOrMethod(recv.Typ, true, pkgOfType(recv.Typ), sel.Name)
+		obj, index, _ := types.LookupFieldOrMethod(recv.Typ, true, pkgOfType(recv.Typ), sel.Name)
 		m, ok := obj.(*types.Func)
 		if !ok {
 			fail("spec: %s has no method %s", recv.Typ, sel.Name)
+		}
+		// a method promoted through embedded fields: the receiver is the embedded object
+		for _, fi := range index[:len(index)-1] {
+			p, isPtr := recv.Typ.Underlying().(*types.Pointer)
+			if !isPtr || recv.L == nil {
+				fail("spec: promoted method %s on a non-pointer receiver", sel.Name)
+			}
+			st := p.Elem()
+			ft := x.c.structOf(st).ftypes[fi]
+			l := x.fieldLoc(recv.L, st, fi)
+			if l.K == LObj {
+				recv = &Val{Typ: types.NewPointer(ft), L: l, T: l.Ref}
+			} else {
+				recv = x.load(env.st, l, ft)
+			}
+		}
+		// value receiver method called through a pointer: pass the value
+		if sig, ok := m.Type().(*types.Signature); ok && sig.Recv() != nil {
+			_, wantPtr := sig.Recv().Type().(*types.Pointer)
+			if p, havePtr := recv.Typ.Underlying().(*types.Pointer); havePtr && !wantPtr && recv.L != nil {
+				if _, isI := sig.Recv().Type().Underlying().(*types.Interface); !isI {
+					recv = x.load(env.st, recv.L, p.Elem())
+				}
+			}
 		}
 		return x.callPure(m, recv, n.Args, env)
 	}
